@@ -6,7 +6,7 @@ package swarm
 // scripted fake transports of harness/swarmfix (tcp, quic, relay). Sequential: every case runs in its own
 // testing/synctest bubble (virtual time for the dial ranker's delays and the dial timeouts), no scheduler.
 //
-// Space: rule state (none / each single rule / thorough: every pair) x remote address form under test x
+// Space: rule state (every set of at most 2 of the 7 rules; thorough: every subset) x remote address form under test x
 // companion addresses {none, an unblocked tcp address, an unblocked quic address} x outcome scripted for every
 // transport dial {ok, fail} x entry point {DialPeer, NewStream}.
 // Oracle ("outbound dials are refused before any transport dial to a blocked peer or address"; "no connection to
@@ -20,7 +20,9 @@ package swarm
 
 import (
 	"context"
+	"encoding/json"
 	"fmt"
+	"os"
 	"net"
 	"net/netip"
 	"sort"
@@ -155,17 +157,32 @@ func (st c10State) ipBlocked(a netip.Addr) bool {
 	return false
 }
 
-func c10States(pairs bool) []c10State {
+// c10States: every subset of the rules with at most maxRules members (0 = all subsets).
+func c10States(all bool) []c10State {
 	rules := c10Rules()
-	out := []c10State{{Name: "no rule"}}
-	for _, r := range rules {
-		out = append(out, c10State{Name: r.Name, Rules: []c10Rule{r}})
+	max := 2
+	if all {
+		max = len(rules)
 	}
-	if pairs {
-		for i := range rules {
-			for j := i + 1; j < len(rules); j++ {
-				out = append(out, c10State{Name: rules[i].Name + " + " + rules[j].Name, Rules: []c10Rule{rules[i], rules[j]}})
+	var out []c10State
+	for size := 0; size <= max; size++ {
+		for mask := 0; mask < 1<<len(rules); mask++ {
+			var rs []c10Rule
+			var names []string
+			for i, r := range rules {
+				if mask&(1<<i) != 0 {
+					rs = append(rs, r)
+					names = append(names, r.Name)
+				}
 			}
+			if len(rs) != size {
+				continue
+			}
+			name := "no rule"
+			if len(names) > 0 {
+				name = strings.Join(names, " + ")
+			}
+			out = append(out, c10State{Name: name, Rules: rs})
 		}
 	}
 	return out
@@ -228,6 +245,7 @@ var c10Companions = []struct {
 	{"alone", nil},
 	{"+tcp 5.6.7.8", []string{"/ip4/5.6.7.8/tcp/4001"}},
 	{"+quic 5.6.7.8", []string{"/ip4/5.6.7.8/udp/4001/quic-v1"}},
+	{"+tcp+quic 5.6.7.8", []string{"/ip4/5.6.7.8/tcp/4001", "/ip4/5.6.7.8/udp/4001/quic-v1"}},
 }
 
 type c10Resolver struct{}
@@ -401,11 +419,20 @@ func c10OutClass(st c10State, f c10Form, comp []string, o c10OutObs) string {
 func TestVerifC10Outbound(t *testing.T) {
 	r := vrep.New("C10", "outbound")
 	defer r.Flush()
-	if vrep.ReplayPath() != "" {
-		return
+	var replay *c10OutCase
+	if p := vrep.ReplayPath(); p != "" {
+		var rf struct {
+			Part   string     `json:"part"`
+			Replay c10OutCase `json:"replay"`
+		}
+		b, err := os.ReadFile(p)
+		if err != nil || json.Unmarshal(b, &rf) != nil || rf.Part != "outbound" {
+			return
+		}
+		replay = &rf.Replay
 	}
 	forms := c10Forms()
-	states := c10States(vrep.Thorough())
+	states := c10States(vrep.Thorough() || replay != nil)
 	r.Bounds["rule_states"] = len(states)
 	r.Bounds["address_forms"] = len(forms)
 	r.Bounds["companions"] = len(c10Companions)
@@ -415,7 +442,7 @@ func TestVerifC10Outbound(t *testing.T) {
 	deadline := vrep.Deadline().Add(-5 * time.Second)
 	distinct := map[string]struct{}{}
 	shard, nshards := vrep.Shard()
-	idx := 0
+	idx, nsamples := 0, 0
 loop:
 	for _, st := range states {
 		for _, f := range forms {
@@ -423,15 +450,22 @@ loop:
 				for _, outcome := range []string{fxOK, fxFail} {
 					for _, entry := range []string{"DialPeer", "NewStream"} {
 						idx++
-						if idx%nshards != shard {
+						cs := c10OutCase{State: st.Name, Form: f.Class, Addr: f.Addr, Companion: comp.Name, Outcome: outcome, Entry: entry}
+						if replay != nil {
+							if cs != *replay {
+								continue
+							}
+						} else if idx%nshards != shard {
 							continue
 						}
 						if time.Now().After(deadline) {
 							r.Cap("deadline reached after %d cases", r.Executions)
 							break loop
 						}
-						cs := c10OutCase{State: st.Name, Form: f.Class, Addr: f.Addr, Companion: comp.Name, Outcome: outcome, Entry: entry}
 						o := c10RunOutbound(t, st, forms, f, comp.Addrs, outcome, entry)
+						if replay != nil {
+							fmt.Printf("replay %+v\n  err=%q\n  transport dials=%v\n  conns=%v connected-notifications=%d hooks=%s\n  findings=%v\n", cs, o.Err, o.Dials, o.Conns, o.Connected, o.Hooks, o.Findings)
+						}
 						if o.Infra != "" {
 							r.Cap("infrastructure (no verdict): %s in %+v", o.Infra, cs)
 							continue
@@ -440,7 +474,7 @@ loop:
 						cl := c10OutClass(st, f, comp.Addrs, o)
 						r.Outcome(cl)
 						r.Outcome("hooks-called-by-swarm-on-dial: " + o.Hooks)
-						distinct[cl+"|"+f.Class+"|"+st.Name] = struct{}{}
+						distinct[cl+"|"+f.Class+"|"+entry] = struct{}{}
 						if len(st.Rules) == 0 && len(comp.Addrs) == 0 && outcome == fxOK {
 							// non-vacuity baseline: without rules the address under test is dialled and the connection admitted
 							if o.Err != "" || len(o.Dials) == 0 || len(o.Conns) == 0 {
@@ -449,7 +483,8 @@ loop:
 								r.Outcome("baseline-no-rule-connected")
 							}
 						}
-						if len(o.Findings) == 0 && len(st.Rules) > 0 && st.ipBlocked(f.IP) && len(comp.Addrs) > 0 && outcome == fxFail {
+						if len(o.Findings) == 0 && len(st.Rules) > 0 && st.ipBlocked(f.IP) && len(comp.Addrs) > 0 && outcome == fxFail && nsamples < 3 && idx%37 == 0 {
+							nsamples++
 							r.Sample(map[string]any{"case": cs, "transport_dials": o.Dials, "error": o.Err, "verdict": "ok"})
 						}
 						seen := map[string]bool{}
@@ -465,6 +500,9 @@ loop:
 		}
 	}
 	r.Distinct = int64(len(distinct))
+	if replay != nil || shard != 0 {
+		return
+	}
 	c10SwarmInbound(t)
 }
 
@@ -477,6 +515,7 @@ func c10SwarmInbound(t *testing.T) {
 	r := vrep.New("C10", "swarm-addconn")
 	defer r.Flush()
 	states := c10States(false)
+	states = states[:1+len(c10Rules())] // no rule + the single rules
 	raddrs := []string{"/ip4/1.2.3.4/tcp/4001", "/ip6/::ffff:1.2.3.4/tcp/4001", "/ip6/2001:db8::1/udp/4001/quic-v1", "/ip4/9.9.9.9/tcp/4001"}
 	distinct := map[string]struct{}{}
 	for _, st := range states {
